@@ -2137,7 +2137,13 @@ void Node::register_peer_contact(PeerContact contact) {
 
 std::vector<ChunkStore::SnapshotEntry> Node::stored_chunks() const {
     SchedulerLock lock(scheduler_mutex_);
-    return chunk_store_.snapshot();
+    auto entries = chunk_store_.snapshot();
+    const auto now = std::chrono::steady_clock::now();
+    entries.erase(std::remove_if(entries.begin(), entries.end(), [&](const ChunkStore::SnapshotEntry& entry) {
+                      return now >= entry.expires_at;
+                  }),
+        entries.end());
+    return entries;
 }
 
 std::size_t Node::connected_peer_count() const {
